@@ -45,6 +45,10 @@ def main():
                     res[pid]["first"] = json.dumps(v[0])[:500]
     finally:
         sh("git -C /repo checkout -- .")
+        if "C18" in ids:
+            # the C18 check rewrites lean/BB/Generated/* and lean/BB/Audit/C18.lean from tm/num.py:
+            # regenerate them from the restored source so that a seeded table never stays behind
+            sh("PYENV_VERSION=3.12.1 " + os.path.expanduser("~/.pyenv/versions/3.12.1/bin/python3") + " tools/extract_num.py", cwd=V)
     print(json.dumps(res, indent=1))
     return 0
 
